@@ -4,9 +4,14 @@ import LyModel.Props.C09
 #print axioms LyModel.Props.C09.failed_implement_keeps_features
 #print axioms LyModel.Props.C09.pending_batch_dropped
 #print axioms LyModel.Props.C09.latest_flag_not_restored
+#print axioms LyModel.Props.C09.latest_flag_restored
 #print axioms LyModel.Props.C09.data_stays_usable_fails
 #print axioms LyModel.Props.C09.data_stays_usable_partial
 #print axioms LyModel.Props.C09.data_stays_usable_partial_load
 #print axioms LyModel.Props.C09.compiled_schema_not_restored
+#print axioms LyModel.Props.C09.implemented_targets_compiled
 #print axioms LyModel.Props.C09.later_load_differs
+#print axioms LyModel.Props.C09.later_load_same
+#print axioms LyModel.Props.C09.imported_rev_restored
 #print axioms LyModel.Props.C09.nested_failure_leaves_debris
+#print axioms LyModel.Props.C09.nested_failure_reverted
